@@ -21,9 +21,10 @@ TECHNIQUE = 'abstract interpretation of decl.c with scripted token cursor -> per
 # ------------------------------------------------------------------ declaration alphabet
 
 class D:
-    __slots__ = ('kind', 'scope', 'sc', 'inline', 'init', 'asm')
-    def __init__(self, kind, scope, sc, inline=False, init=False, asm=False):
+    __slots__ = ('kind', 'scope', 'sc', 'inline', 'init', 'asm', 'ty')
+    def __init__(self, kind, scope, sc, inline=False, init=False, asm=False, ty=('int', 0)):
         self.kind, self.scope, self.sc, self.inline, self.init, self.asm = kind, scope, frozenset(sc), inline, init, asm
+        self.ty = ty      # (type name, qualifiers) of an object declaration
     def __repr__(self):
         s = ' '.join(sorted(self.sc)) + (' inline' if self.inline else '')
         body = (' {...}' if self.kind == 'func' else ' = 1') if self.init else ''
@@ -196,7 +197,7 @@ def decl_models(prog, dw_holder):
         it.assign(sc.obj, sc.path, v)
         it.assign(fs.obj, fs.path, FS['FUNCINLINE'] if d.inline else 0)
         it.assign(align.obj, align.path, 0)
-        return StructVal({('type',): dw.w.t('int'), ('qual',): 0, ('expr',): None})
+        return StructVal({('type',): dw.w.t(d.ty[0]), ('qual',): d.ty[1], ('expr',): None})
     def declarator(it, a, e):
         d = cur(it); dw = it.user['dw']
         s, base, name, funcscope, allowabstract = a
@@ -206,7 +207,7 @@ def decl_models(prog, dw_holder):
             it.assign(funcscope.obj, funcscope.path, Ptr(fsobj, ()))
             return StructVal({('type',): dw.functype, ('qual',): 0, ('expr',): None})
         it.assign(funcscope.obj, funcscope.path, None)
-        return StructVal({('type',): dw.w.t('int'), ('qual',): 0, ('expr',): None})
+        return StructVal({('type',): dw.w.t(d.ty[0]), ('qual',): d.ty[1], ('expr',): None})
     def consume(it, a, e):
         k = a[0]; d = cur(it)
         if k == T['TSEMICOLON']:
@@ -592,9 +593,31 @@ def rule_flush_all(chk, prog, tier):
     r.exhaustive = True
 
 
+def rule_redecl_types(chk, prog, tier):
+    r = chk.rule('C09.f', 'two declarations of the same object with linkage must agree in type and qualifiers, whether the second is in the same scope or a block-scope extern declaration', floor=60,
+                 oracle='C11 6.7p4, 6.2.7p2')
+    models = decl_models(prog, None)
+    decl_fn = prog.require_func('decl', 'decl.c'); flush_fn = prog.require_func('emittentativedefns', 'decl.c')
+    QC, QV = ev(prog, 'QUALCONST'), ev(prog, 'QUALVOLATILE')
+    TYS = [('int', 0), ('int', QC), ('int', QV), ('int', QC | QV), ('long', 0), ('uint', 0)]
+    shapes = [(('file', ()), ('file', ())), (('file', ('extern',)), ('file', ())), (('file', ()), ('block', ('extern',))), (('file', ('extern',)), ('block', ('extern',))), (('file', ('static',)), ('block', ('extern',)))]
+    for (s1, sc1), (s2, sc2) in shapes:
+        for t1 in TYS:
+            for t2 in TYS:
+                hist = [D('obj', s1, sc1, ty=t1), D('obj', s2, sc2, ty=t2)]
+                steps, final, ik = run_history(prog, models, hist, decl_fn, flush_fn)
+                got_diag = any(st[0] != 'ok' for st in steps)
+                want_diag = t1 != t2
+                qn = lambda q: ('const ' if q & QC else '') + ('volatile ' if q & QV else '')
+                key = 'redecl-type:[%s] %s %s%s x; [%s] %s %s%s x' % (s1, ' '.join(sc1) or '-', qn(t1[1]), t1[0], s2, ' '.join(sc2) or '-', qn(t2[1]), t2[0])
+                r.instance(got_diag == want_diag, key, 'decl.c:declcommon', 'must be %s; cproc %s (%s)' % ('diagnosed' if want_diag else 'accepted', 'diagnoses it' if got_diag else 'accepts it', [st[0] for st in steps]))
+    r.exhaustive = True
+
+
 def run(chk, tier):
     prog = facts.programs()['cproc-qbe']
     chk.guard('C09.b', lambda: rule_histories(chk, prog, tier))
     chk.guard('C09.c', lambda: rule_naming(chk, prog, tier))
     chk.guard('C09.d', lambda: rule_flush(chk, prog, tier))
     chk.guard('C09.e', lambda: rule_flush_all(chk, prog, tier))
+    chk.guard('C09.f', lambda: rule_redecl_types(chk, prog, tier))
